@@ -60,6 +60,7 @@ fn run_job(job: &Value) -> Value {
         fiemap_split: gu(k, "fiemap_split").unwrap_or(0),
         fiemap_round_eof: gb(k, "fiemap_round_eof"),
         fiemap_past_eof: gu(k, "fiemap_past_eof").unwrap_or(0),
+        fiemap_flagbits: gu(k, "fiemap_flagbits").unwrap_or(0),
         getdents: gs(k, "getdents").unwrap_or("perm").to_string(),
         wake_any: gb(k, "wake_any"),
     };
@@ -173,6 +174,9 @@ fn run_job(job: &Value) -> Value {
     m.insert("events".into(), Value::Array(std::mem::take(&mut sup.events)));
     if gb(job, "record_sched") {
         m.insert("sched".into(), json!(sup.sched_rec));
+    }
+    if gb(job, "unmount") {
+        sandbox::unmount_below(&root);
     }
     if gb(job, "cleanup") {
         sandbox::wipe(&root);
